@@ -15,22 +15,12 @@
    This file contains nothing but the property theorems, each closed by [exact <lemma>]
    and followed by Print Assumptions.
 
-   OPEN (stretch goal of DESIGN.md, not proved): termination of tickit_rectset_add and
-   hence of tickit_rectset_subtract,
-     C05_add_terminates : forall s r, Inv s -> nonempty r ->
-                            exists fuel, rs_add fuel false s r <> None
-     C05_subtract_terminates : forall s r, Inv s -> nonempty r ->
-                            exists fuel, rs_subtract fuel false s r <> None.
-   What is missing: a measure that decreases across the split-and-recurse branch (the
-   recursive adds run on a set that has lost x but gains the pieces one after the other).
-   What IS proved about termination: the restart loop and the recursion of contains
-   (C05_contains_terminates), and -- for the remainders re-added by subtract -- that add
-   never splits (RectSetIso.iso_add).  The correspondence check reports that the C
-   returned on every explored history (a hang would be a CRASH timeout observation) and
-   that the model never ran out of its fuel (4000) on them. *)
+   Termination (DESIGN.md's stretch goal) is proved as existence of sufficient fuel:
+   C05_add_terminates, C05_subtract_terminates, C05_run_terminates, and C05_total combines
+   it with C05_history into a total-correctness statement. *)
 From Coq Require Import ZArith List.
 From Tickit Require Import RectDefs RectSetDefs RectSetSpec RectSetProofs RectSetQueries
-  RectSetSubtract RectSetHistory.
+  RectSetSubtract RectSetHistory RectSetTerm RectSetTermSub.
 Import ListNotations.
 Local Open Scope Z_scope.
 
@@ -98,6 +88,33 @@ Theorem C05_history : forall fuel ops s,
      (forall qfuel, (Z.to_nat (lines q) < qfuel)%nat -> rs_contains qfuel s q <> None)).
 Proof. exact history_ok. Qed.
 Print Assumptions C05_history.
+
+(* termination: on every array satisfying the invariant some amount of fuel suffices
+   (measure for add: rows of the current rectangle x members touching it in that row,
+   then the length of the array; for the subtract loop: members meeting the hole, then
+   length - index) *)
+Theorem C05_add_terminates : forall s r, Inv s -> nonempty r ->
+  exists fuel s', rs_add fuel false s r = Some s'.
+Proof. exact rs_add_terminates. Qed.
+Print Assumptions C05_add_terminates.
+
+Theorem C05_subtract_terminates : forall s r, Inv s -> nonempty r ->
+  exists fuel s', rs_subtract fuel false s r = Some s'.
+Proof. exact rs_subtract_terminates. Qed.
+Print Assumptions C05_subtract_terminates.
+
+Theorem C05_run_terminates : forall ops s, Inv s -> Forall op_ok ops ->
+  exists fuel s', rs_run fuel false s ops = Some s'.
+Proof. exact rs_run_terminates. Qed.
+Print Assumptions C05_run_terminates.
+
+(* total correctness of every history from the empty set *)
+Theorem C05_total : forall ops, Forall op_ok ops ->
+  exists fuel s, rs_run fuel false [] ops = Some s /\
+    Forall nonempty s /\ pairwise_disjoint s /\ sorted s /\
+    (forall p, covered s p <-> region_spec ops p).
+Proof. exact history_total. Qed.
+Print Assumptions C05_total.
 
 (* the oracle's executable region is the reference region; its order test is [sorted] *)
 Theorem C05_oracle_region : forall ops p, regionb ops p = true <-> region_spec ops p.
